@@ -46,10 +46,21 @@ def apply_mask(mask, data):
 # frames
 
 
-def encode_frame(opcode, payload=b"", fin=True, rsv=0, mask=None, len_form=None):
+def encode_frame(opcode, payload=b"", fin=True, rsv=0, mask=None, len_form=None,
+                 declared_len=None):
     """One frame.  ``rsv`` is the 3-bit field (RSV1=4, RSV2=2, RSV3=1);
     ``mask`` = 4 bytes (client->server frames) or None; ``len_form`` forces
-    the 7 / 16 / 64-bit length encoding (default: the minimal one)."""
+    the 7 / 16 / 64-bit length encoding (default: the minimal one);
+    ``declared_len`` (violations only) writes that value into the 64-bit
+    length field whatever the payload's real length is, e.g. with the
+    reserved most significant bit set (RFC 6455 5.2: it MUST be 0)."""
+    if declared_len is not None:
+        b0 = (0x80 if fin else 0) | ((rsv & 7) << 4) | (opcode & 0x0F)
+        head = bytes((b0, (0x80 if mask is not None else 0) | 127)) \
+            + (declared_len & 0xFFFFFFFFFFFFFFFF).to_bytes(8, "big")
+        if mask is not None:
+            return head + bytes(mask) + apply_mask(mask, payload)
+        return head + bytes(payload)
     n = len(payload)
     b0 = (0x80 if fin else 0) | ((rsv & 7) << 4) | (opcode & 0x0F)
     mb = 0x80 if mask is not None else 0
